@@ -610,6 +610,36 @@ func driveLRU(opt *Options) error {
 		fmt.Sscan(s, &steps)
 	}
 	variants := []string{"cache", "ecache", "expirable", "ptr"}
+	if opt.Extra["mode"] == "longlived" {
+		// ONE expirable cache in use for longer than a quarter of a minute of real time, with expired items resident that
+		// nobody asks for: what leaves the cache, and when, is the same as in the first second of its life
+		o, r, err := newLruObj("expirable", 3, false, false)
+		if err != nil {
+			return err
+		}
+		tw.Emit(map[string]any{"op": "New", "cap": 3, "nilcreate": false, "alias": false, "expirable": true, "nodel": false, "variant": "expirable", "ok": true})
+		emit := func(s Step) { tw.Emit(lruCall(o, r, s).toMap(s)) }
+		goc := func(pk int, outs ...any) { emit(Step{"op": "GetOrCreate", "pk": float64(pk), "outs": outs}) }
+		goc(2, "ok", "ok")
+		goc(1, "stale", "stale") // the second creation's item stays: resident and expired
+		goc(3, "ok", "ok")
+		for _, pause := range []time.Duration{16500 * time.Millisecond, 0} {
+			time.Sleep(pause)
+			goc(3, "ok", "ok")
+			goc(4, "ok", "ok")
+			goc(2, "ok", "ok")
+			goc(5, "stale", "stale")
+			goc(3, "ok", "ok")
+			emit(Step{"op": "Remove", "pk": float64(4)})
+			goc(6, "ok", "ok")
+			goc(1, "ok", "stale")
+		}
+		for i := 0; i < 60; i++ {
+			goc(1+rnd.Intn(6), []any{"ok", "stale", "fail"}[rnd.Intn(3)], []any{"ok", "stale"}[rnd.Intn(2)])
+		}
+		emit(Step{"op": "Clear"})
+		return nil
+	}
 	for t := 0; t < opt.N; t++ {
 		if lruHung.Load() > 0 {
 			break // a call never returned (recorded as a crash line): its goroutine still spins, stop here
